@@ -14,6 +14,7 @@ import (
 	"sort"
 	"strconv"
 	"strings"
+	"sync"
 	"time"
 )
 
@@ -94,7 +95,9 @@ func readFindings() []knownFinding {
 	return out
 }
 
-func shortFn(key string) string { return strings.TrimPrefix(strings.TrimPrefix(key, modulePath+"/"), modulePath+".") }
+func shortFn(key string) string {
+	return strings.TrimPrefix(strings.TrimPrefix(key, modulePath+"/"), modulePath+".")
+}
 
 // obligation names without the volatile return ordinal, for matching findings
 func obBase(name string) string {
@@ -624,22 +627,22 @@ func writeEvidence(path, prop, tier string, seed int, results []*FnResult, repor
 		}
 	}
 	cov := map[string]interface{}{
-		"second_solver_on_discharged": map[string]interface{}{"answers": cross, "disagreements": disagreements},
-		"obligations":              nOb,
-		"discharged":               nDis,
-		"checker_cmd":              fmt.Sprintf("/verif/bin/govc check --property %s --tier %s", prop, tier),
-		"trusted_base":             trusted,
-		"samples":                  samples,
-		"functions_under_contract": fns,
+		"second_solver_on_discharged":    map[string]interface{}{"answers": cross, "disagreements": disagreements},
+		"obligations":                    nOb,
+		"discharged":                     nDis,
+		"checker_cmd":                    fmt.Sprintf("/verif/bin/govc check --property %s --tier %s", prop, tier),
+		"trusted_base":                   trusted,
+		"samples":                        samples,
+		"functions_under_contract":       fns,
 		"functions_inlined_into_callers": sortedKeys(inlined),
-		"obligation_kinds":         kinds,
-		"discharged_by_backend":    backends,
-		"discharged_by_simplifier": nTrivial,
-		"solver_stats":             solverSecs,
-		"optional_overflow_obligations": map[string]int{"generated": nOptional, "discharged": nOptDis},
-		"known_findings":           known,
-		"bounded_standins":         standinsOrEmpty(),
-		"exhaustive":               false,
+		"obligation_kinds":               kinds,
+		"discharged_by_backend":          backends,
+		"discharged_by_simplifier":       nTrivial,
+		"solver_stats":                   solverSecs,
+		"optional_overflow_obligations":  map[string]int{"generated": nOptional, "discharged": nOptDis},
+		"known_findings":                 known,
+		"bounded_standins":               standinsOrEmpty(),
+		"exhaustive":                     false,
 	}
 	if eng != nil {
 		cov["load_and_ssa_seconds"] = eng.loadSecs
@@ -680,7 +683,6 @@ func specMarkers(eng *Engine) []string {
 
 // propertyAssumptions: the named assumptions of DESIGN.md section 4 / 6 per property.
 var propertyAssumptions = map[string][]string{}
-
 
 // ---------- bounded stand-ins ----------
 
@@ -738,35 +740,49 @@ func runStandin(repo, name, tier string) (bool, string, string) {
 	return ok, summary, firstLines(o, 40)
 }
 
-
 // runSeededSelftest applies each seeded change of the property to a scratch copy of /repo (outside /repo
 // and /verif, removed afterwards) and reports whether this property's check raises a violation on it.
 func runSeededSelftest(prop string) []string {
 	dirs, _ := filepath.Glob(filepath.Join(lockDir(), "seeded", prop+"-*"))
 	sort.Strings(dirs)
-	var out []string
-	for _, d := range dirs {
+	out := make([]string, len(dirs))
+	sem := make(chan struct{}, 3) // three scratch copies at a time
+	var wg sync.WaitGroup
+	for i, d := range dirs {
 		patch := filepath.Join(d, "patch.diff")
 		if _, err := os.Stat(patch); err != nil {
 			continue
 		}
-		cmd := exec.Command("bash", filepath.Join(lockDir(), "tools", "mutcheck.sh"), patch, prop)
-		cmd.Env = append(os.Environ(), "GOVC_NO_SELFTEST=1", "VERIF_TIER=quick")
-		o, _ := cmd.CombinedOutput()
-		res := "MISSED"
-		if strings.Contains(string(o), "VIOLATION property="+prop) {
-			res = "detected"
-		} else if strings.Contains(string(o), "PATCH-FAILED") {
-			res = "patch does not apply to the current tree"
-		}
-		first := ""
-		for _, l := range strings.Split(string(o), "\n") {
-			if strings.HasPrefix(l, "VIOLATION") {
-				first = " (" + strings.TrimSpace(strings.SplitN(l, "obligation=", 2)[len(strings.SplitN(l, "obligation=", 2))-1]) + ")"
-				break
+		wg.Add(1)
+		go func(i int, d, patch string) {
+			defer wg.Done()
+			sem <- struct{}{}
+			defer func() { <-sem }()
+			cmd := exec.Command("bash", filepath.Join(lockDir(), "tools", "mutcheck.sh"), patch, prop)
+			cmd.Env = append(os.Environ(), "GOVC_NO_SELFTEST=1", "VERIF_TIER=quick")
+			o, _ := cmd.CombinedOutput()
+			res := "MISSED"
+			if strings.Contains(string(o), "VIOLATION property="+prop) {
+				res = "detected"
+			} else if strings.Contains(string(o), "PATCH-FAILED") {
+				res = "patch does not apply to the current tree"
 			}
-		}
-		out = append(out, "self-test on seeded change "+filepath.Base(d)+": "+res+first)
+			first := ""
+			for _, l := range strings.Split(string(o), "\n") {
+				if strings.HasPrefix(l, "VIOLATION") {
+					first = " (" + strings.TrimSpace(strings.SplitN(l, "obligation=", 2)[len(strings.SplitN(l, "obligation=", 2))-1]) + ")"
+					break
+				}
+			}
+			out[i] = "self-test on seeded change " + filepath.Base(d) + ": " + res + first
+		}(i, d, patch)
 	}
-	return out
+	wg.Wait()
+	var res []string
+	for _, l := range out {
+		if l != "" {
+			res = append(res, l)
+		}
+	}
+	return res
 }
